@@ -218,11 +218,12 @@ PROPS["C04"] = {
     "suites": [{"name": "collide", "quick": 8, "thorough": 50, "timeout": 3000}, {"name": "zipeq", "quick": 4, "thorough": 40, "timeout": 3000},
                {"name": "ssasem", "quick": 4, "thorough": 30, "timeout": 3000}],
     "also": ["C09"],   # the zipeq suite tags its correspondence violations C09
-    "lean_modules": ["SfwModel.Props.C04", "SfwModel.Props.C09Zipper", "SfwModel.Props.C09Equiv"],
+    "lean_modules": ["SfwModel.Props.C04", "SfwModel.Props.C09Zipper", "SfwModel.Props.C09Equiv", "SfwModel.Props.C03Sem", "SfwModel.Props.C04Sem"],
     "required_theorems": ["C04_preserved_iff", "C04_identical_copy_preserved", "C04_oversized_never_zipper_preserved",
                           "C04_unmatched_means_modified", "C04_zipper_preserved_same_size", "C04_constant_marker_was_unsound",
                           "C04_equivalent_same_operator", "C04_equivalent_operands", "C04_equivalent_operands_swapped",
-                          "C04_swap_guard", "C04_mapped_operand_respected"],
+                          "C04_swap_guard", "C04_mapped_operand_respected",
+                          "C04_sem_allowSwap_sound", "C04_sem_iso_same_behaviour", "C04_sem_exchanged_returns_rejected"],
     "level_text": "Kernel-checked decision logic of CompareFunctions: the verdict is `preserved` iff the fingerprints are equal, or neither side is oversized and the zipper left nothing added and nothing removed; identical copies are preserved; an oversized function is never waved through by the zipper; any unmatched instruction means modified; zipper-preserved pairs have equally many instructions (bookkeeping theorems of C09). Behavioural tie: for every generated (old,new) pair whose native outputs differ on some input, and for the specials (exchanged if/else bodies, oversized edit, callee swap, select, nested loop variables), the real cli.CompareFunctions / ComputeDiff status must not be preserved; every function compared with a separately compiled copy of itself must be preserved with nothing added or removed.",
     "level_note": "PARTIAL: that fingerprint equality and an empty zipper difference imply equal behaviour is C03's open half; here it is searched by native execution. The zipper's equivalence test is modelled and tied decision by decision (trace hook); theorems say what a positive decision guarantees (same operator fields; every operand already mapped to its partner or a non-linkable value with the same canonical text; swaps only for commutative numeric ops and ==/!=).",
     "partial": "soundness of the two routes to `preserved` rests on C03 / the zipper's equivalence relation, searched by native execution",
